@@ -76,6 +76,36 @@ func c01Deliver(c *deliverCtx) {
 	if len(d.Spec.Payloads) > 0 && !d.NilKey {
 		w.nontriv = true
 	}
+	// benign transport faults that actually happened
+	seen, _ := w.ext["c01_seen"].(map[int]int)
+	if seen == nil {
+		seen = map[int]int{}
+		w.ext["c01_seen"] = seen
+	}
+	if seen[c.s.Dgram] > 0 {
+		w.stats.inc("fault_duplicate_delivery")
+	}
+	seen[c.s.Dgram]++
+	if hi, _ := w.ext["c01_hi"].(int); c.s.Dgram < hi {
+		w.stats.inc("fault_reordered_delivery")
+	} else {
+		w.ext["c01_hi"] = c.s.Dgram
+	}
+	if !d.NilKey {
+		n := d.Spec.innerSize()
+		switch n % 16 {
+		case 15:
+			w.stats.inc("probe_inner_mod16_eq_15_pad_len_0")
+		case 0:
+			w.stats.inc("probe_inner_mod16_eq_0_pad_len_15")
+		}
+		if n > 60000 {
+			w.stats.inc("probe_near_16bit_limit")
+		}
+		if n == maxInnerProtected(c.sa.Suite.refInteg().ICVLen) {
+			w.stats.inc("probe_exactly_max_protected_size")
+		}
+	}
 	if len(d.Spec.Payloads) == 0 {
 		w.stats.inc("probe_empty_payload_list")
 	}
